@@ -109,6 +109,17 @@ def gen_streams(rng, quick):
     zl += zl[10:30]
     out.append(("zoned-shuffled", zl, "\n", True))
     out.append(("zoned-descending", sorted(zl, key=lambda x: x.split()[1], reverse=True), "\n", True))
+    # consecutive stamps exactly one zone offset apart (whole hours up and down, 1..13 h, winter and summer), two of them on one line: what
+    # was printed for one value must not be taken for the next
+    hl = []
+    for base in (datetime.datetime(2021, 1, 15, 8, 0, 0), datetime.datetime(2021, 7, 15, 8, 0, 0)):
+        for step in (1, 2, -1, -2, -5, -4, 10, 11, 9, 13, -8, 5, 0):
+            t = base
+            for k in range(6):
+                hl.append("ev %s tail" % t.strftime("%Y-%m-%dT%H:%M:%S"))
+                t += datetime.timedelta(hours=step)
+            hl.append("two %s and %s" % (base.strftime("%Y-%m-%dT%H:%M:%S"), (base + datetime.timedelta(hours=step)).strftime("%Y-%m-%dT%H:%M:%S")))
+    out.append(("zoned-hourly", hl, "\n", True))
     # input formats without a literal character (the scanner counts digits instead of searching for a needle): many value-carrying lines in a
     # row, with other digit runs on the lines
     dl = []
